@@ -22,6 +22,7 @@ def run(c):
     r3(c)
     r4(c)
     r5(c)
+    r6(c)
 
 
 def r1(c):
@@ -178,6 +179,27 @@ def r4(c):
     path_var = cur.elts[0].id if isinstance(cur, ast.Tuple) and isinstance(cur.elts[0], ast.Name) else None
     c.check("C04.R4", ok and path_var is not None and norm(par) == "context", repo.loc(tm, rec[0]), "RosFormatter.blocks_and_context/hand-down",
             "the recursive call does not hand its own section path down as FormatterContext(parent=context, current=(<path>, ...))", key_text="hand-down")
+    # every nested section opened for a row is filled by the walk made for that very row
+    gm4 = GuardMap(fn)
+    pv4 = Provenance(fn)
+    lp = [l for l in gm4.in_loop(rec[0]) if isinstance(l, ast.For)]
+    ok = bool(lp)
+    detail = "the recursive walk is outside the loop over the rows"
+    if ok:
+        inner = lp[-1]
+        begins = [y for y in walk_no_nested(inner) if isinstance(y, ast.Yield) and isinstance(y.value, ast.Tuple) and y.value.elts and norm(y.value.elts[0]) == "BlockBegin"]
+        yfs = [y for y in walk_no_nested(inner) if isinstance(y, ast.YieldFrom)]
+        ok = len(begins) == 1 and len(yfs) == 1
+        detail = f"{len(begins)} BlockBegin / {len(yfs)} nested streams in the row loop"
+        if ok:
+            src = pv4.resolve_alias(yfs[0].value)
+            while isinstance(src, ast.Call) and call_name(src) in ("list", "tuple", "iter") and src.args:
+                src = pv4.resolve_alias(src.args[0])
+            ok = src is rec[0] and G.equivalent(gm4.formula(rec[0]), gm4.formula(begins[0])) and G.equivalent(gm4.formula(yfs[0]), gm4.formula(begins[0])) \
+                and gm4.in_loop(rec[0])[-1] is gm4.in_loop(begins[0])[-1]
+            detail = f"the stream yielded between BlockBegin and BlockEnd is `{norm(yfs[0].value)[:50]}` (walk made under {G.show(gm4.formula(rec[0]))})"
+    c.check("C04.R4", ok, repo.loc(tm, rec[0]), "RosFormatter.blocks_and_context/walk-per-row", f"{detail}; expected: the recursive walk made for this row, with this row's path, under the same "
+            "condition as its BlockBegin — a walk reused for another row carries the first row's path into the other section", key_text="walk-per-row")
     if path_var:
         # how is the path built:  f"{<prefix>} {row}"  -- the prefix must read this level's context (context.row / context.current[0]), not context.parent.*
         defs = [n for n in walk_no_nested(fn) if isinstance(n, ast.Assign) and norm(n.targets[0]) == path_var]
@@ -225,3 +247,101 @@ def r5(c):
         c.check("C04.R5", fresh and not stores, repo.loc(v.mod, fn), f"{v.cls.name}.make_formatter", f"make_formatter {'stores an instance on the vendor object' if stores else 'does not return a fresh Formatter(**kwargs)'}: "
                 "the result of make_formatter() depends on earlier calls in the process", key_text="cached-formatter")
     c.floor("C04.R5", "vendors", len(vendors), 14)
+
+
+# per formatter class: how split() recognises the terminator lines it drops, as confirmed by reading today's tree (a wider or different predicate is a new claim)
+TERMINATOR_PREDICATE = {
+    "HuaweiFormatter": "startswith",   # str(x).strip().startswith(words): old VRP prints the terminators with varying indentation
+    "AsrFormatter": "endswith",        # x.endswith(words): IOS-XR terminators end the line; rows such as `end-policy-map` merely begin with one
+}
+
+
+def _terminator_filters(repo, m, cls):
+    """(predicate kind, words, node) for every row filter in the resolved split of a class, following one level of self.<helper>(...)"""
+    sp = repo.class_attr(m, cls, "split")
+    if not sp or not isinstance(sp[2], ast.FunctionDef):
+        return None
+    out = []
+
+    def scan(fn, binding, depth):
+        pv = Provenance(fn)
+
+        def words_of(e):
+            e = pv.resolve_alias(e)
+            if isinstance(e, ast.Name) and e.id in binding:
+                e = binding[e.id]
+            if isinstance(e, ast.Call) and call_name(e) == "tuple" and e.args:
+                return words_of(e.args[0])
+            if isinstance(e, (ast.Tuple, ast.List, ast.Set)) and e.elts and all(isinstance(x, ast.Constant) and isinstance(x.value, str) for x in e.elts):
+                return tuple(x.value for x in e.elts)
+            if isinstance(e, ast.Constant) and isinstance(e.value, str):
+                return (e.value,)
+            return None
+        for n in ast.walk(fn):
+            if isinstance(n, ast.Call) and isinstance(n.func, ast.Attribute) and n.func.attr in ("startswith", "endswith") and n.args:
+                w = words_of(n.args[0])
+                if w and any("end" in x for x in w):
+                    out.append((n.func.attr, w, n, fn))
+            elif isinstance(n, ast.Compare) and len(n.ops) == 1 and isinstance(n.ops[0], (ast.In, ast.NotIn, ast.Eq, ast.NotEq)):
+                w = words_of(n.comparators[0])
+                if w and any("end" in x for x in w):
+                    out.append(("equals", w, n, fn))
+        if depth < 2:
+            for call in calls_in(fn):
+                if isinstance(call.func, ast.Attribute) and isinstance(call.func.value, ast.Name) and call.func.value.id == "self" and call.func.attr != fn.name:
+                    h = repo.class_attr(m, cls, call.func.attr)
+                    if h and isinstance(h[2], ast.FunctionDef) and h[0].name == TAB:
+                        ps = [a.arg for a in h[2].args.args][1:]
+                        b = {}
+                        for i, a in enumerate(call.args):
+                            if i < len(ps):
+                                ra = pv.resolve_alias(a)
+                                b[ps[i]] = binding.get(ra.id, ra) if isinstance(ra, ast.Name) else ra
+                        for k in call.keywords:
+                            if k.arg:
+                                b[k.arg] = pv.resolve_alias(k.value)
+                        scan(h[2], b, depth + 1)
+    scan(sp[2], {}, 0)
+    return out
+
+
+def _exit_words(repo, m, cls):
+    be = repo.class_attr(m, cls, "block_exit")
+    words = set()
+    if be and isinstance(be[2], ast.FunctionDef):
+        for n in ast.walk(be[2]):
+            if isinstance(n, ast.Call) and call_name(n) == "block_wrapper" and n.args and isinstance(n.args[0], ast.Constant):
+                words.add(n.args[0].value)
+            elif isinstance(n, ast.Yield) and isinstance(n.value, ast.Constant) and isinstance(n.value.value, str):
+                words.add(n.value.value)
+    return words
+
+
+def r6(c):
+    repo = c.repo
+    c.rule("C04.R6", "block terminators: a formatter whose split() drops terminator lines of policy blocks drops exactly the words its own block_exit() re-creates (sibling agreement), "
+                     "and recognises them with the predicate confirmed for that vendor (HuaweiFormatter: stripped line starts with a word; AsrFormatter: line ends with a word) or with "
+                     "an exact match; any other predicate drops rows that are not terminators")
+    fc = formatter_classes(repo)
+    n = 0
+    for name, (m, cls, vns) in sorted(fc.items()):
+        fl = _terminator_filters(repo, m, cls)
+        if not fl:
+            if name in TERMINATOR_PREDICATE:
+                raise AnchorError(f"{name}.split: terminator filter not found")
+            continue
+        n += 1
+        ex = _exit_words(repo, m, cls)
+        for kind, words, node, fn in fl:
+            miss = [w for w in words if w not in ex]
+            c.check("C04.R6", not miss, repo.loc(m, node), f"{name}.split/terminator-words", f"split drops lines by {list(words)} but block_exit of the class never produces {miss}: such rows are lost "
+                    "from the tree and not restored on rendering", key_text="words")
+            want = TERMINATOR_PREDICATE.get(name)
+            ok = kind == "equals" or kind == want
+            if want is None and kind != "equals":
+                c.undecided("C04.R6", repo.loc(m, node), f"{name}.split/terminator-predicate", f"new terminator filter `{norm(node)[:60]}`: confirm the predicate for this vendor and add it to the table")
+                continue
+            c.check("C04.R6", ok, repo.loc(m, node), f"{name}.split/terminator-predicate", f"terminator lines are recognised with `{kind}` ({norm(node)[:60]}); the predicate confirmed for {name} is "
+                    f"`{want}`: rows that only {'begin' if kind == 'startswith' else 'end'} with a terminator word (e.g. `end-policy-map` for end-policy) are dropped by split and vanish from the tree",
+                    key_text="predicate")
+    c.floor("C04.R6", "formatters with terminator filters", n, 2)
